@@ -64,6 +64,11 @@ def make_source(sym, kind):
         envs = Environments.from_custom(SymEnv(data))
         if kind == 'logged': envs = envs.logged(BanditEpsilonLearner(.5, seed=2))
         return envs, unchanged, kind == 'custom'
+    if kind == 'arff_nominal':
+        from coba.environments.supervised import ArffSource
+        lines = ["@relation t","@attribute p numeric","@attribute c {r,g,b}","@attribute y {A,B}","@data","1,r,A","2,g,B","3,b,A","4,r,B"]
+        keep = list(lines)
+        return Environments.from_supervised(ArffSource(ListSource(lines)), 'y'), (lambda: lines == keep), False
     if kind in ('nested_list','nested_ns'):
         from coba.primitives import Categorical
         LV = ['u','v','w']
@@ -84,7 +89,7 @@ def make_source(sym, kind):
 def unwrapless(v): return v
 def _same(X, Y, snap): return all(a is b for r,s in zip(X,snap[0]) for a,b in zip(r,s)) and list(Y) == snap[1]
 
-SOURCES = ['linear','neighbors','kernel','mlp','lambda','lambda_rng','xy','csv','custom','logged','nested_list','nested_ns']
+SOURCES = ['linear','neighbors','kernel','mlp','lambda','lambda_rng','xy','csv','custom','logged','nested_list','nested_ns','arff_nominal']
 FILTERS = {
     'none':      lambda e: e,
     'shuffle':   lambda e: e.shuffle(seed=3),
@@ -126,6 +131,9 @@ def freeze(it):
                 if is_batch(v): out[k] = ('fn', [[f(a) for a in A] for f,A in zip(v, it['actions'])])
                 else: out[k] = ('fn', [v(a) for a in acts])
             except Exception as e: out[k] = ('fn-raises', type(e).__name__)
+        elif is_batch(v) and len(v) and all(callable(f) for f in v):
+            try: out[k] = ('fn', [[f(a) for a in A] for f,A in zip(v, it['actions'])])
+            except Exception as e: out[k] = ('fn-raises', type(e).__name__)
         elif hasattr(v,'items') and not isinstance(v,dict): out[k] = dict(v.items())
         elif isinstance(v,(list,tuple)): out[k] = [ (dict(x.items()) if hasattr(x,'items') and not isinstance(x,dict) else list(x) if isinstance(x,(tuple,)) or (hasattr(x,'__iter__') and not isinstance(x,(str,dict,list))) else x) for x in v]
         else: out[k] = v
@@ -152,10 +160,10 @@ def params_(tier):
     if tier == 'quick':
         pairs = [(f,'none') for f in fl] + [('shuffle','take'),('logged','shuffle'),('cache','take'),('chunk','shuffle'),('scale','sort'),('impute','scale'),('noise','cache'),('reservoir','batch'),('logged_eps','cache'),('take','cache')]
     else:
-        pairs = [(a,b) for a in fl for b in fl if not (a == 'none' and b != 'none')]
+        pairs = [(a,b) for a in fl for b in fl if not (a == 'none' and b != 'none') and not (a in ('batch','batch_unbatch') and b in ('batch','batch_unbatch'))]    # batching a batch is outside
     return [dict(src=s, f1=a, f2=b) for s in SOURCES for a,b in pairs] + [dict(src='lambda30', f1=a, f2=b) for a,b in (('cache','none'),('chunk','none'),('cache','take'),('none','none'),('shuffle','cache'))]
 
-@obligation('C04','reread', bounds={'quick':"12 sources (incl. two whose contexts nest a categorical inside a list / namespace dict) (+ a 30-interaction lambda source for the cache filters) x (27 single filters + 10 two-filter chains) x read histories of 2 operations (3 thorough) from {full read, partial read abandoned after j interactions, params, pickle round-trip, materialize} followed by a full read; symbolic integer features in the custom source",
+@obligation('C04','reread', bounds={'quick':"13 sources (incl. an ARFF file with nominal feature and label, and two whose contexts nest a categorical inside a list / namespace dict) (+ a 30-interaction lambda source for the cache filters) x (27 single filters + 10 two-filter chains) x read histories of 2 operations (3 thorough) from {full read, partial read abandoned after j interactions, params, pickle round-trip, materialize} followed by a full read; symbolic integer features in the custom source",
                                     'thorough':"all ordered filter pairs; plus save()/from_save()"},
             functions=FUNCS, params=params_, classify=_classify, budget={'quick':100,'thorough':3000})
 def reread(sym, src, f1, f2):
